@@ -384,6 +384,78 @@ fn sequential_legs(fam: &Family, rules: &[String], baselines: &[(Outs, Vec<(Stri
     }
 }
 
+/// state that builds up over many *different* inputs (process-wide memo tables, bounded caches):
+/// evaluate N distinct inputs, then the first ones again; every outcome must equal the one the same
+/// input produced the first time round and the reference value
+fn many_inputs_leg(acc: &mut Acc, n: usize) {
+    let world = Arc::new(Mutex::new(World::default()));
+    let rules: Vec<String> = ["datetime(ts)", "year(datetime(ts)) * i100 + month(datetime(ts))", "int(num) + i1", "uppercase(name)", "c(name)", "dec(price)", "datetime(secs)"].iter().map(|s| s.to_string()).collect();
+    let rs = match build(&rules, &world) {
+        Ok(r) => r,
+        Err(m) => return acc.machinery(m),
+    };
+    let input = |i: usize| -> (Value, (i64, u32, u32)) {
+        let day = i as i64;
+        let secs = 946_684_800 + day * 86_400 + 3_600;
+        let (y, m, d, ..) = crate::spec::civil::components(secs);
+        let ts = format!("{y:04}-{m:02}-{d:02}T01:00:00Z");
+        let v = Value::Map(
+            [
+                ("ts".to_string(), Value::String(ts)),
+                ("num".to_string(), Value::String(format!("{}", i * 7919))),
+                ("name".to_string(), Value::String(format!("name{i}"))),
+                ("price".to_string(), Value::String(format!("{}.{:02}", i, i % 100))),
+                ("secs".to_string(), Value::Int(secs as i128)),
+            ]
+            .into_iter()
+            .collect(),
+        );
+        (v, (y, m, d))
+    };
+    let mut first: Vec<Outs> = Vec::new();
+    let order: Vec<usize> = (0..n).chain(0..n.min(40)).chain((0..n).rev().take(40)).collect();
+    for &i in &order {
+        let (facts, (y, m, _)) = input(i);
+        acc.count("executions", 1);
+        let out = match catch(|| crate::engine::exec::block_on(rs.evaluate_value(&facts))) {
+            Ok(Ok(o)) => owned(o),
+            other => Err(format!("{:?}", other.map(|_| ()))),
+        };
+        let out = match out {
+            Ok(o) => o,
+            Err(m) => {
+                acc.violation(Violation { sig: "many-inputs/failed".into(), what: format!("evaluation of input #{i} failed: {m}"), case: json!({"kind": "many-inputs", "input": i}), size: i });
+                return;
+            }
+        };
+        // independent expectation for the calendar rule
+        let want = RV::Int(y as i128 * 100 + m as i128);
+        if out[1].1 != Obs::Ok(want.clone()) {
+            acc.violation(Violation {
+                sig: "many-inputs/value".into(),
+                what: format!("input #{i} (after {} other evaluations): year*100+month = {}, expected {}", first.len(), out[1].1.show(), want.show()),
+                case: json!({"kind": "many-inputs", "input": i}),
+                size: i,
+            });
+            return;
+        }
+        if i < first.len() {
+            if first[i] != out {
+                acc.violation(Violation {
+                    sig: "many-inputs/changed".into(),
+                    what: format!("input #{i} gives different outcomes the second time, after {} other evaluations on the same ruleset", order.len()),
+                    case: json!({"kind": "many-inputs", "input": i}),
+                    size: i,
+                });
+                return;
+            }
+        } else {
+            first.push(out);
+        }
+    }
+    acc.outcome("many-inputs");
+}
+
 /// Expr::evaluate: repeated and interleaved polls of several evaluations of one expression
 fn expr_leg(acc: &mut Acc) {
     let texts = ["a + b * i2", "if a > b then [a, b] else {k: a}", "a / (b - b)", "uppercase(s) contains \"X\""];
@@ -447,7 +519,18 @@ pub fn run(tier: Tier) -> i32 {
             match baseline(&rules, i) {
                 Ok(b) => bases.push(b),
                 Err(m) => {
-                    rep.acc.machinery(m);
+                    // a plain, never-suspending evaluation driven by a wake-respecting executor
+                    // did not complete: that is already schedule dependence
+                    rep.acc.outcome("baseline-failed");
+                    rep.acc.violation(Violation {
+                        sig: format!("{}/baseline", f.name),
+                        what: format!("{}: an isolated evaluation did not complete under a wake-driven executor: {m}", f.name),
+                        case: json!({"kind": "baseline", "family": f.name}),
+                        size: 1,
+                    });
+                    rep.states = 1;
+                    rep.transitions = 1;
+                    rep.traces = 1;
                     return rep.finish();
                 }
             }
@@ -507,6 +590,7 @@ pub fn run(tier: Tier) -> i32 {
         Err(m) => acc.machinery(m),
     }
     expr_leg(&mut acc);
+    many_inputs_leg(&mut acc, tier.pick(300, 3000));
     rep.absorb(acc);
     rep.bound("abandonments_per_long_history", abandon_n);
     rep.states = stats.nodes;
